@@ -1,11 +1,13 @@
 CONSTANTS
-  MaxLen = 3
+  MaxLen = 8
   Emit = FALSE
   Dev_TickerInterval = FALSE
   Dev_NoSessionCheck = FALSE
   Dev_NilSession = FALSE
   Dev_UnknownItem = FALSE
-  SvcFilter = {"CreateSubscription","CreateMonitoredItems","SetMonitoringMode","DeleteMonitoredItems","DeleteSubscriptions","CloseSession","Publish","Read"}
+  Dev_BlockedFanout = FALSE
+  SvcFilter = {}
 SPECIFICATION Spec
 INVARIANTS InvAliveAndResponsive InvItemInSub
+VIEW view
 CHECK_DEADLOCK FALSE
